@@ -27,6 +27,10 @@ type gen struct {
 	bound                  map[string]bool // pod names that were ever written bound to a node
 	nNodes, nClaims, nPods int
 	count                  func(string)
+	histOK                 bool   // the premise hist_ok of the theorem, mirrored on the real cache
+	histWhy                string // first reason it failed
+	roundStart             int    // index in ops where the closing round starts (-1: none)
+	roundEnd               int
 }
 
 func (g *gen) observe(tag string) {
@@ -34,8 +38,92 @@ func (g *gen) observe(tag string) {
 	g.ops = append(g.ops, Op{Kind: "Obs", Obs: &d, Tag: tag})
 }
 
+// opOK mirrors C11.Proofs.op_ok (C11.Check.op_ok_b) on the real cache: what the environment must respect
+// when it writes a Node / NodeClaim.
+func (g *gen) opOK(o Op) {
+	if o.Kind != "SetNode" && o.Kind != "SetClaim" {
+		return
+	}
+	fail := func(why string) {
+		if g.histOK {
+			g.histOK, g.histWhy = false, why
+		}
+	}
+	d := g.w.cluster.VerifC11Dump()
+	nodes := map[string]*NodeV{}
+	for k, v := range g.w.nodes {
+		nodes[k] = v
+	}
+	claims := map[string]*ClaimV{}
+	for k, v := range g.w.claims {
+		claims[k] = v
+	}
+	if o.Kind == "SetNode" {
+		nodes[o.Node.Name] = o.Node
+	} else {
+		claims[o.Claim.Name] = o.Claim
+	}
+	for n1, a := range nodes {
+		if n1 == "" {
+			fail("empty-node-name")
+		}
+		for n2, b := range nodes {
+			if n1 != n2 && trackable(a) && trackable(b) && epidOf(a) == epidOf(b) {
+				fail("two-nodes-share-a-provider-id")
+			}
+		}
+	}
+	for c1, a := range claims {
+		for c2, b := range claims {
+			if c1 != c2 && a.PID != "" && a.PID == b.PID {
+				fail("two-claims-share-a-provider-id")
+			}
+		}
+	}
+	if o.Kind == "SetNode" {
+		nd := o.Node
+		if trackable(nd) {
+			for m, x := range d.NodeNameToPID {
+				if x == epidOf(nd) && m != nd.Name {
+					fail("provider-id-cached-under-another-node-name")
+				}
+			}
+		}
+		if _, ok := d.NodeNameToPID[nd.Name]; ok && !trackable(nd) {
+			fail("tracked-node-becomes-untrackable")
+		}
+	} else {
+		cl := o.Claim
+		if cl.PID != "" {
+			for k, x := range d.ClaimNameToPID {
+				if x == cl.PID && k != cl.Name {
+					fail("provider-id-cached-under-another-claim-name")
+				}
+			}
+		}
+		if x, ok := d.ClaimNameToPID[cl.Name]; ok && x != "" && cl.PID == "" {
+			fail("launched-claim-loses-its-provider-id")
+		}
+	}
+}
+
+// podsSettled mirrors C11.Proofs.pods_settled on the API state.
+func (g *gen) podsSettled() bool {
+	for _, p := range g.w.pods {
+		if p.Terminal || p.Node == "" {
+			continue
+		}
+		n, ok := g.w.nodes[p.Node]
+		if !ok || !trackable(n) {
+			return false
+		}
+	}
+	return true
+}
+
 func (g *gen) emit(o Op) {
 	g.branch(o)
+	g.opOK(o)
 	g.ops = append(g.ops, o)
 	g.w.apply(o)
 	switch o.Kind {
@@ -424,6 +512,8 @@ func (g *gen) weakClose() {
 
 // fullRound delivers every key ever mentioned at least once, in random order, with some duplicates.
 func (g *gen) fullRound() {
+	g.roundStart = len(g.ops)
+	defer func() { g.roundEnd = len(g.ops) }()
 	keys := sortedSet(g.ever)
 	for i := len(keys) - 1; i > 0; i-- {
 		j := g.r.Intn(i + 1)
